@@ -399,12 +399,23 @@ async fn closing(r: &mut Rng) -> (String, String) {
     // 0: receiver closes after pos, 1: receiver dropped after pos, 2: all senders dropped at the end,
     // 3: like 0 but the sender overrides graceful close (as chmux forwarding does) and the receiver is dropped after closing
     let kind = r.below(4);
-    let msgs: Vec<Vec<u8>> = (0..n).map(|i| vec![i as u8; r.below(20) as usize]).collect();
+    let mut msgs: Vec<Vec<u8>> = (0..n).map(|i| vec![i as u8; r.below(20) as usize]).collect();
+    // 4: like 0, but the sender overrides graceful close and goes on sending (as chmux forwarding does) much more than
+    //    the receive buffer holds, while the closed receiver keeps receiving: everything must arrive, then end-of-stream
+    //    (drawn after the other choices, so that recorded seeds of kinds 0-3 keep their meaning)
+    let kind = if kind == 0 && r.chance(1, 2) { 4 } else { kind };
+    let mut n = n;
+    if kind == 4 {
+        for i in 0..r.range(10, 60) as usize {
+            msgs.push(vec![(n + i) as u8; r.range(1, 40) as usize]);
+        }
+        n = msgs.len();
+    }
     let sig = format!("closing:k{kind}:n{}:pos{}", n.min(4), pos.min(4));
     if std::env::var("VH_DEBUG").is_ok() { eprintln!("{sig} n={n} pos={pos}"); }
     let (stx, mut srx) = tokio::sync::mpsc::unbounded_channel::<(usize, Result<(), SendError>)>();
     let to_send = msgs.clone();
-    if kind == 3 {
+    if kind == 3 || kind == 4 {
         tx.set_override_graceful_close(true);
     }
     let sender_task = tokio::spawn(async move {
@@ -422,7 +433,7 @@ async fn closing(r: &mut Rng) -> (String, String) {
     let mut rx_opt = Some(rx);
     let mut eos = false;
     let mut closed_called = false;
-    for it in 0..200 {
+    for it in 0..(if kind == 4 { 8000 } else { 200 }) {
         if std::env::var("VH_DEBUG").is_ok() { eprintln!("iter {it} got {} closed {closed_called}", got.len()); }
         quiesce().await;
         if let Some(rx) = rx_opt.as_mut() {
@@ -434,7 +445,7 @@ async fn closing(r: &mut Rng) -> (String, String) {
                     rx_opt = None;
                     continue;
                 }
-                if kind == 0 {
+                if kind == 0 || kind == 4 {
                     if std::env::var("VH_DEBUG").is_ok() { eprintln!("closing..."); }
                     rx.close().await;
                     if std::env::var("VH_DEBUG").is_ok() { eprintln!("closed"); }
@@ -496,6 +507,15 @@ async fn closing(r: &mut Rng) -> (String, String) {
                 }
             } else if ok_count < n {
                 return (sig, "FAIL: C11 sender neither completed nor failed after close".into());
+            }
+        }
+        4 => {
+            // closed but still receiving, sender overriding graceful close: nothing may be lost or left pending
+            if !sender_task.is_finished() {
+                return (sig, format!("FAIL: C11 sender overriding graceful close is starved: {} of {n} sends completed although the closed receiver keeps receiving ({} received)", ok_count, got.len()));
+            }
+            if ok_count != n || got.len() != n || !eos {
+                return (sig, format!("FAIL: C11 closed receiver obtained {} of {n} messages sent by a sender overriding graceful close ({} sends Ok), eos={eos}", got.len(), ok_count));
             }
         }
         3 => {
